@@ -29,6 +29,50 @@ specs = {
    adapted="the sub-agent's patch was written against the tree before the fix commit ad1ce13; patch.diff is the same change (TryLock, skip when a save is in flight) on the fixed tree; patch_original.diff is the sub-agent's own"),
  'C13b': dict(prop='C13', dir='C13/b', demos={'seeded_c13b_demo_test.go':'couchbase/seeded_c13b_demo_test.go','seeded_c13b_e2e_demo_test.go':'seeded_c13b_e2e_demo_test.go'}, cmd="go test -mod=mod -vet=off -count=1 -run TestSeededC13b ./couchbase/ .",
    needs="health check enabled, a ping of the current round has failed, Close() arrives during the retry wait: Stop() blocks while the round keeps sleeping and pinging"),
+ 'C02a': dict(prop='C02', dir='C02/a', demos={'seeded_c02a_demo_test.go':'stream/seeded_c02a_demo_test.go'}, cmd="go test -mod=mod -vet=off -count=1 -run TestSeededC02a ./stream/",
+   needs="no checkpoint for any assigned vBucket, auto-reset 'latest', and a vBucket whose failover log has two or more entries: the request carries the oldest branch's vbUUID"),
+ 'C02b': dict(prop='C02', dir='C02/b', demos={'seeded_c02b_demo_test.go':'seeded_c02b_demo_test.go'}, cmd="go test -mod=mod -vet=off -count=1 -run TestSeededC02b .",
+   needs="a custom metadata backend installed via SetMetadata plus metadata.readOnly=true plus a dirty offset that gets saved: the read-only wrapper is no longer applied to custom backends"),
+ 'C07a': dict(prop='C07', dir='C07/a', demos={'seeded_c07a_demo_test.go':'couchbase/seeded_c07a_demo_test.go'}, cmd="go test -mod=mod -vet=off -count=1 -run TestSeededC07A ./couchbase/",
+   needs="rollback mitigation on, a rollback on stream open (catch-up), the replayed history lacks the exact failed seqno, and the first later event is not yet persisted on every copy: it skips the gate"),
+ 'C07b': dict(prop='C07', dir='C07/b', demos={'seeded_c07b_demo_test.go':'couchbase/seeded_c07b_demo_test.go'}, cmd="go test -mod=mod -vet=off -count=1 -run TestSeededC07B ./couchbase/",
+   needs="one copy switches vbUUID at exactly its last recorded persisted seqno while another copy lags and then advances under the old vbUUID; an event lies between the old and the new threshold"),
+ 'C08a': dict(prop='C08', dir='C08/a', demos={'seeded_c08a_demo_test.go':'couchbase/seeded_c08a_demo_test.go'}, cmd="go test -mod=mod -vet=off -count=1 -run 'TestSeededC08a' ./couchbase/",
+   needs="a failover log with at least two entries and a rollback point strictly below the newest entry's start seqno: later offsets carry the old branch's vbUUID"),
+ 'C08b': dict(prop='C08', dir='C08/b', demos={'seeded_c08b_demo_test.go':'stream/seeded_c08b_demo_test.go'}, cmd="go test -mod=mod -vet=off -count=1 -run 'TestSeededC08b' ./stream/",
+   needs="a rollback onto a different vbUUID, a seqno-advanced event with R < seq < F in the replay, a stop before any event above F is acknowledged, and an Ack on another vBucket so the save happens: the stored position drops below F"),
+ 'C10a': dict(prop='C10', dir='C10/a', demos={'seeded_c10a_demo_test.go':'couchbase/seeded_c10a_demo_test.go'}, cmd="go test -mod=mod -vet=off -count=1 -run TestSeededC10a ./couchbase/",
+   needs="two members' monitor rounds overlapping after a membership change (CAS mismatch on the index rewrite, or a transient updateIndex error): the loser's retry sees 'cluster not changed' and never announces"),
+ 'C10b': dict(prop='C10', dir='C10/b', demos={'seeded_c10b_demo_test.go':'servicediscovery/seeded_c10b_demo_test.go'}, cmd="go test -mod=mod -vet=off -count=1 -run TestSeededC10b ./servicediscovery/",
+   needs="a single transient failure of a leader-to-follower Rebalance RPC while pings keep succeeding: the follower is dropped and a member number is claimed twice"),
+ 'C11a': dict(prop='C11', dir='C11/a', demos={'seeded_c11_a_test.go':'stream/seeded_c11_a_test.go'}, cmd="go test -mod=mod -vet=off -count=1 -run TestSeededC11A_NotificationWhileReopening ./stream/",
+   needs="a notification arriving while the stream is being reopened (timer already fired): Reset re-arms the fired timer, a stray reopen without a close follows (unlock of unlocked mutex)"),
+ 'C11b': dict(prop='C11', dir='C11/b', demos={'seeded_c11_b_test.go':'stream/seeded_c11_b_test.go'}, cmd="go test -mod=mod -vet=off -count=1 -run TestSeededC11B_BurstKeepsGroupSizeButChangesMemberNumber ./stream/",
+   needs="a membership sequence whose net effect keeps the group size but changes this member's number (2/3 -> 1/3): the reopen lands on the old range"),
+ 'C12a': dict(prop='C12', dir='C12/a', demos={'seeded_c12a_demo_test.go':'stream/seeded_c12a_demo_test.go'}, cmd="go test -mod=mod -vet=off -count=1 -run TestSeededC12a ./stream/",
+   needs="vBucket X ends transiently and, while its reopen is in flight, all other vBuckets end for good: the client stops although X is being reopened; the active-stream count dips"),
+ 'C12b': dict(prop='C12', dir='C12/b', demos={'seeded_c12b_demo_test.go':'stream/seeded_c12b_demo_test.go'}, cmd="go test -mod=mod -vet=off -count=1 -run TestSeededC12b ./stream/",
+   needs="a transient end on an already open vBucket while another vBucket's OpenStream is still in flight during Open(): the reopen is dropped silently"),
+ 'C14a': dict(prop='C14', dir='C14/a', demos={'seeded_c14a_demo_test.go':'stream/seeded_c14a_demo_test.go'}, cmd="go test -mod=mod -vet=off -count=1 -run 'TestSeededC14a' ./stream/",
+   needs="a reserved-prefix event arriving between a consumer Ack and the next save: it is flagged for saving, so the set of checkpoint documents written grows one hop per save"),
+ 'C14b': dict(prop='C14', dir='C14/b', demos={'seeded_c14b_demo_test.go':'couchbase/seeded_c14b_demo_test.go'}, cmd="go test -mod=mod -vet=off -count=1 -run 'TestSeededC14b' ./couchbase/",
+   needs="a group name starting with a dot: it is no longer rejected"),
+ 'C15a': dict(prop='C15', dir='C15/a', demos={'seeded_demo_a_test.go':'stream/seeded_demo_a_test.go'}, cmd="go test -mod=mod -vet=off -count=1 -run '^TestSeededDemoA' ./stream/",
+   needs="a checkpoint taken mid-snapshot and a flush that leaves the high seqno with snapshotStart <= high < checkpoint seqno: start-up is not refused and the stream is requested beyond the high seqno"),
+ 'C15b': dict(prop='C15', dir='C15/b', demos={'seeded_demo_b_test.go':'stream/seeded_demo_b_test.go'}, cmd="go test -mod=mod -vet=off -count=1 -run '^TestSeededDemoB' ./stream/",
+   needs="a failing stream open that completes before some successful open: the later success overwrites the error and Open() proceeds with part of the assignment unopened"),
+ 'C16a': dict(prop='C16', dir='C16/a', demos={'seeded_demo_a_test.go':'metric/seeded_demo_a_test.go'}, cmd="go test -mod=mod -vet=off -count=1 ./metric/ -run TestSeededA",
+   needs="a mixed high-seqno vector: one vBucket whose high seqno is below its tracked position while another genuinely lags: total lag is no longer the sum of the per-vBucket lags"),
+ 'C16b': dict(prop='C16', dir='C16/b', demos={'seeded_demo_b_test.go':'stream/seeded_demo_b_test.go'}, cmd="go test -mod=mod -vet=off -count=1 ./stream/ -run TestSeededB",
+   needs="a rebalance where the group keeps its size but this member gets a different number: the exported member number and vBucket range go stale"),
+ 'C19a': dict(prop='C19', dir='C19/a', demos={'seeded_demo_a_test.go':'couchbase/seeded_demo_a_test.go'}, cmd="go test -mod=mod -vet=off -count=1 -run TestSeededA ./couchbase/",
+   needs="Stop() arriving while a round is in progress and at least one ping of that round has already failed: the remaining pings go out back to back and the checker panics during shutdown"),
+ 'C19b': dict(prop='C19', dir='C19/b', demos={'seeded_demo_b_test.go':'couchbase/seeded_demo_b_test.go'}, cmd="go test -mod=mod -vet=off -count=1 -run TestSeededB ./couchbase/",
+   needs="a sequence of rounds on the same instance where earlier rounds had failures and recovered: the failure counter is never reset and a later round panics before five consecutive failures"),
+ 'C20a': dict(prop='C20', dir='C20/a', demos={'seeded_demo_a_test.go':'couchbase/seeded_demo_a_test.go','seeded_fakekv_test.go':'couchbase/seeded_fakekv_test.go'}, cmd="go test -mod=mod -vet=off -count=1 -run TestSeededA ./couchbase/",
+   needs="the server never replies to the checkpoint xattr lookup while the connection stays up: the read has no deadline any more and hangs"),
+ 'C20b': dict(prop='C20', dir='C20/b', demos={'seeded_demo_b_test.go':'couchbase/seeded_demo_b_test.go','seeded_fakekv_test.go':'couchbase/seeded_fakekv_test.go'}, cmd="go test -mod=mod -vet=off -count=1 -run TestSeededB ./couchbase/",
+   needs="a partial ping failure reported before the deadline (mgmt answers an error while KV is fine, or the reverse): Ping reports success"),
 }
 only = sys.argv[1:] 
 for sid, sp in specs.items():
